@@ -88,6 +88,11 @@ def run_case(tier, seed, index, spec=None):
                 changed[rng.randrange(s)] = 'other!'
                 if fggs.FiniteDomain(changed) == d:
                     V('domain-equality', f'FiniteDomain({changed}) == FiniteDomain({vals})')
+            if s >= 2:
+                # same values in another order number differently: not the same domain
+                perm = vals[1:] + vals[:1]
+                if fggs.FiniteDomain(perm) == d or not (fggs.FiniteDomain(perm) != d):
+                    V('domain-equality:order', f'FiniteDomain({perm}) == FiniteDomain({vals}) although they numberize differently')
             if d == fggs.RangeDomain(s) or fggs.RangeDomain(s) == d:
                 V('domain-equality', 'FiniteDomain equal to a RangeDomain')
             j = d.to_json()
@@ -281,6 +286,10 @@ def run_case(tier, seed, index, spec=None):
                 D4 = list(D)
                 D4[k] = fggs.FiniteDomain([f'other{i}' for i in range(shape[k])])
                 attempt('add_factor with an equal-size different domain', lambda: X.add_factor(el, fggs.FiniteFactor(D4, torch.zeros(shape, dtype=torch.float64))), ('ValueError',), 'bind-wrong-domain')
+            if shape[k] > 1 and isinstance(D[k], fggs.FiniteDomain):
+                D5 = list(D)
+                D5[k] = fggs.FiniteDomain(D[k].values[1:] + D[k].values[:1])
+                attempt('add_factor with a permuted domain', lambda: X.add_factor(el, fggs.FiniteFactor(D5, torch.zeros(shape, dtype=torch.float64))), ('ValueError',), 'bind-wrong-domain:permuted')
             un = fggs.EdgeLabel('u', typ[:k] + [fggs.NodeLabel('Unmapped')] + typ[k + 1:], is_terminal=True)
             attempt('add_factor on a label with an unmapped node label', lambda: X.add_factor(un, mk()), ('ValueError',), 'bind-unmapped-nodelabel')
         attempt('new_finite_factor(unknown name)', lambda: X.new_finite_factor('nosuch', wl), ('KeyError',), 'bind-unknown-name')
